@@ -347,7 +347,16 @@ func classify(p *Program, m *model, order []int, kind string, ex *expect, mode s
 		parts := strings.SplitN(kind[4:], ">", 2)
 		exp, got = parts[0], parts[1]
 	}
-	if retypePattern(p, order) {
+	plainMismatch := false
+	for _, c := range m.concreteMismatch {
+		if !m.widened(c) {
+			plainMismatch = true
+		}
+	}
+	handlerSource := exp == "error" && ex != nil && strings.HasPrefix(positionKind(p, ex.FailFrom), "passthrough-")
+	// the re-typing mechanism shows as a panic escaping the run, or as a plain (not interface-widened) concrete
+	// mismatch being accepted; other failures of programs that merely contain the pattern have other causes
+	if retypePattern(p, order) && !handlerSource && (got == "panic" || (kind == "accepted-concrete-mismatch" && plainMismatch)) {
 		switch {
 		case kind == "accepted-concrete-mismatch":
 			return "branch-retypes-inferred-passthrough"
